@@ -949,7 +949,7 @@ def Args.exprAt (r : Rec) (env : Env) (a : Args) (j : Nat) : M Val :=
     if isUnderscore e then
       match a.piped with
       | some p => pure p
-      | none => errPlain "pipe slot marker ('_') used as argument, but no value is piped into the call"
+      | none => errAt e.loc "pipe slot marker ('_') used as argument, but no value is piped into the call"
     else r.evalExpr env e
   | none => pure .invalid
 
@@ -1426,7 +1426,7 @@ def evalExprF (r : Rec) (env : Env) (e : Expr) : M Val :=
     | .opaque _ => unsupported "call of opaque"
     | _ =>
     if !kindIsFunc fv then
-      (if fv.isValid then errAt loc "node is not func kind" else errPlain "reflect: call of reflect.Value.Type on zero Value")
+      errAt loc "node is not func kind"
     else callAt r env loc fv { exprs := args, hasSlot := hasSlot, piped := none }
   | .index loc base idx => do
     let bv ← r.evalExpr env base
